@@ -350,6 +350,7 @@ func axHex(s string) {}
 //
 //@ ext io.ReadFull func(r io.Reader, buf []byte) (n int, err error)
 //@ requires r != nil
+//@ ensures HKDFIs384(r) && len(buf) <= 255*48 ==> err == nil && string(buf) == HKDFSHA384(HKDFIkm(r), HKDFSalt(r), HKDFInfo(r), len(buf))
 //@ ensures err == nil ==> n == len(buf)
 //@ ensures err != nil ==> n < len(buf)
 //@ ensures 0 <= n && n <= len(buf)
@@ -374,3 +375,13 @@ func axHex(s string) {}
 //@ lemma auto trusted
 //@ ensures x > 0 && x < ECOrder(c) ==> Invertible(x, ECOrder(c))
 func axECOrderPrime(c elliptic.Curve, x Mathint) {}
+
+// ===========================================================================
+// HKDF (golang.org/x/crypto/hkdf): the reader yields the output keying material of the given inputs.
+
+//@ spec opaque
+func HKDFSHA384(ikm, salt, info string, n int) string { return "" }
+
+//@ lemma auto trusted
+//@ ensures n >= 0 && n <= 255*48 ==> len(HKDFSHA384(ikm, salt, info, n)) == n
+func axHKDFLen(ikm, salt, info string, n int) {}
